@@ -6,8 +6,9 @@ export GOFLAGS=-mod=mod GOPROXY=off GOSUMDB=off GOTOOLCHAIN=local
 mkdir -p .work evidence replays extract/bin harness/bin
 (cd extract && go build -o bin/extract .)
 ./extract/bin/extract -repo "${VERIF_REPO:-/repo}" -out lean/Mcp/Gen
-DRVS=$(python3 checklib/mkmain.py | sed -n 's/^drivers: //p')
-(cd lean && lake build Mcp $DRVS)
+python3 checklib/mkmain.py >/dev/null
+# build the proofs and drivers of the claimed properties (one target at a time: a broken one must not hide the others)
+for t in $(python3 checklib/targets.py); do (cd lean && lake build $t) || echo "setup: lake target $t failed"; done
 cp /repo/go.sum harness/go.sum
-(cd harness && for d in cmd/*/; do n=$(basename $d); go build -tags verif -o bin/$n ./cmd/$n; done)
+(cd harness && for n in $(python3 ../checklib/targets.py components); do go build -tags verif -o bin/$n ./cmd/$n || echo "setup: harness component $n failed"; done)
 echo "setup ok"
